@@ -886,4 +886,5 @@ def selftest():
     u = fixtures.load("tbaa.c")
     rep = driver.Report("fixture", "quick")
     r_tbaa.check(rep, u, [f for f in u.function_list if f.name.startswith("fx_")])
-    fixtures.expect(rep, ["fx_copy_bad", "fx_pun_bad"], ["fx_copy_ok", "fx_bytes_ok", "fx_param_ok"], "R-TBAA")
+    r_tbaa.check_record_casts(rep, u, [f for f in u.function_list if f.name.startswith("fx_reccast")])
+    fixtures.expect(rep, ["fx_copy_bad", "fx_pun_bad", "fx_reccast_bad"], ["fx_copy_ok", "fx_bytes_ok", "fx_param_ok", "fx_reccast_ok"], "R-TBAA")
